@@ -210,6 +210,9 @@ func (o *verifC15Obs) wrapVM(svm *test.StubVM) {
 	svm.SSHService.Exec = func(env map[string]string, command string, stdin io.Reader, stdout, stderr io.Writer) uint32 {
 		if strings.HasPrefix(command, "crunch-run --detach") {
 			o.noteDetach(id)
+			if i := strings.LastIndex(command, "zzzzz-dz642-"); i >= 0 && len(command) >= i+27 {
+				svm.VerifC15ClearKilled(command[i : i+27])
+			}
 			return orig(env, command, stdin, stdout, stderr)
 		}
 		if command == "crunch-run --list" {
